@@ -33,7 +33,13 @@ func init() { register("C10", runC10) }
 
 var c10Epoch = time.Unix(1700000000, 0)
 
-const c10Watchdog = 3 * time.Second
+// generous: a callback reaches its parking point in microseconds; the watchdog only trips when the
+// code under test blocks (e.g. reads the clock while holding cp.mutex). After c10MaxHangs hung
+// cases the generators stop (a change that hangs does so on thousands of cases).
+const c10Watchdog = 10 * time.Second
+const c10MaxHangs = 3
+
+var c10Hangs int
 
 // ---------------------------------------------------------------------------------------------
 // harness clock
@@ -360,11 +366,17 @@ func (s *c10Sim) Do(a c10Act) string {
 	})
 	if r != "" {
 		s.dead = true
+		if r == "hang" {
+			c10Hangs++
+		}
 		return r
 	}
 	o := c10Guarded(func() string { return "=" + s.observe() })
 	if !strings.HasPrefix(o, "=") {
 		s.dead = true
+		if o == "hang" {
+			c10Hangs++
+		}
 		return o
 	}
 	return o[1:]
@@ -592,6 +604,9 @@ func c10Enumerate(env *Env, ttlSecs uint32, tick int64, keys []c10Key, tags2, ha
 	ttl := c10TTLns(ttlSecs)
 	var rec func(prefix []c10Act)
 	rec = func(prefix []c10Act) {
+		if c10Hangs >= c10MaxHangs {
+			return
+		}
 		s := newC10Sim(ttlSecs, tick)
 		out := make([]string, 0, len(prefix))
 		for _, a := range prefix {
@@ -677,7 +692,7 @@ func runC10(env *Env) {
 		n = 40000
 	}
 	ttls := []uint32{1, 1, 2, 3, 0, 600}
-	for i := 0; i < n; i++ {
+	for i := 0; i < n && c10Hangs < c10MaxHangs; i++ {
 		depth := 80
 		switch i % 4 {
 		case 0:
